@@ -331,6 +331,11 @@ def big_in(v):
     return v
 
 
+def known_sig(rep, sig):
+    import re
+    return any(f.get("status") == "finding" and re.fullmatch(f["signature"], sig) for f in rep.findings)
+
+
 def model_expr(case, bb):
     fn = case[0]
     args = list(case[1:])
@@ -1153,7 +1158,7 @@ def _run(rep, tier, rng):
             rep.failing(o[0], "implementation violates the C08 contract: " + o[1],
                         {"kind": "impl-oracle", "function": FN[c[0]], "args": [jarg(a) if a is not None else None for a in c[1:]],
                          "impl_result": vlib.jv(r) if r[0] != "e" else list(r)})
-    ndis = 0
+    ndis = nrepaired = 0
     if model_ok:
         try:
             skip = {i for i in need_bb if bbs[i]["otps"]}
@@ -1170,6 +1175,12 @@ def _run(rep, tier, rng):
                 if i in skip:
                     continue
                 if not same(ri, rm):
+                    om = oracle_model_case(c, rm)
+                    if om and known_sig(rep, om[0]) and not oracle_model_case(c, ri):
+                        # the faithful model shows a *listed* defect on this input while the implementation now does what
+                        # the property demands: an upstream repair, not a violation (DESIGN.md 1.4)
+                        nrepaired += 1
+                        continue
                     ndis += 1
                     if ndis <= 6:
                         vlib.log(f"  disagreement {FN[c[0]]} {str([jarg(a) if a else None for a in c[1:]])[:300]}: impl {str(ri)[:200]} model {str(rm)[:200]}")
@@ -1178,7 +1189,12 @@ def _run(rep, tier, rng):
                         if nm not in rep.broken:
                             rep.broken.append(nm)
             rep.obligation("correspondence:model=implementation on all model-function cases", ndis == 0,
-                           f"{ndis} disagreements" if ndis else "")
+                           f"{ndis} disagreements" if ndis else
+                           (f"{nrepaired} inputs of a listed finding class now satisfy the property (repaired upstream; model and "
+                            "refutation theorems describe the previous behaviour)" if nrepaired else ""))
+            if nrepaired:
+                vlib.log(f"  note: {nrepaired} inputs of a listed finding class now satisfy the property in the implementation "
+                         "(repaired upstream?) -- flip the model/theorems and drop the finding")
         except Exception as ex:  # noqa
             rep.obligation("correspondence:model evaluation", False, repr(ex))
     else:
